@@ -94,9 +94,23 @@ def find_fn(src, msk, name, within=None):
         depth = msk[lo:s].count("{") - msk[lo:s].count("}")
         if depth != (1 if within else 0):
             continue
-        b = msk.find("{", s)
-        semi = msk.find(";", s)
-        if b < 0 or (0 <= semi < b):
+        # body '{' = first '{' at bracket depth 0 after the name; a ';' at depth 0 first means a declaration
+        b = -1
+        d = 0
+        i = s
+        while i < hi:
+            ch = msk[i]
+            if ch in "([":
+                d += 1
+            elif ch in ")]":
+                d -= 1
+            elif ch == "{" and d == 0:
+                b = i
+                break
+            elif ch == ";" and d == 0:
+                break
+            i += 1
+        if b < 0:
             continue
         e = match_brace(msk, b)
         # extend start backwards over `pub`, `pub(crate)`, `const`, attributes and doc comments
